@@ -52,8 +52,21 @@ def scn_poll(ctx):
                 ev.add("poll_raise", call=k, exc=exc, tags=list(tags))
                 raise exc
             for d, tg in zip(descriptors, tags):
-                act = ctx.choice(3, "poll%d-act%s" % (k, tg)) if scripted else 1
-                # 0 nothing, 1 yield value, 2 yield exception
+                act = ctx.choice(5 if p.get("double_yields") else 3, "poll%d-act%s" % (k, tg)) if scripted else 1
+                # 0 nothing, 1 yield value, 2 yield exception, 3 value then exception, 4 exception then value
+                if act in (3, 4):
+                    exc = YieldedError("yielded %s.%d" % (tg, k))
+                    for which in ((1, 2) if act == 3 else (2, 1)):
+                        if which == 1:
+                            ev.add("yield_begin", tag=tg, ykind="value", call=k)
+                            d.yield_result(("out", tg, k))
+                            ev.add("yield_end", tag=tg, ykind="value", call=k, value=("out", tg, k))
+                        else:
+                            ev.add("yield_begin", tag=tg, ykind="error", call=k)
+                            d.yield_exception(exc)
+                            ev.add("yield_end", tag=tg, ykind="error", call=k, value=exc)
+                    sched.point()
+                    continue
                 if act == 1:
                     ev.add("yield_begin", tag=tg, ykind="value", call=k)
                     d.yield_result(("out", tg, k))
@@ -252,6 +265,7 @@ def plan(tier, seed):
             dict(scenario="poll", params=dict(n=2, script_calls=1, cancel=True), bounds=dict(P=1)),
             dict(scenario="poll", params=dict(n=2, script_calls=1, plain_cancel=True), bounds=dict(P=1)),
             dict(scenario="poll", params=dict(n=1, script_calls=2, notify=True), bounds=dict(P=1)),
+            dict(scenario="poll", params=dict(n=2, script_calls=1, double_yields=True), bounds=dict(P=0)),
         ]
     return [
         dict(scenario="poll", params=dict(n=3, script_calls=2), bounds=dict(P=1)),
